@@ -50,7 +50,7 @@ def correspondence(ctx):
         if ({"set_global", "set_own"} & kinds) and any(o[0] == "gen" for o in outs) and any(o[0] in ("val", "err") for o in outs):
             res.nontrivial.add(core.canonical_key("h", ops))
     res.rule = ("random histories (10-39 operations) as in C05 but dominated by method operations (global / per quantity, enum or string, "
-                "reset, mc access, sample size); non-trivial = switches a method and contains both a derivative-method and a Monte Carlo "
+                "reset, invalid selections, mc access, sample size, Monte Carlo settings, re-seeding of numpy, singular-point formulas); non-trivial = switches a method and contains both a derivative-method and a Monte Carlo "
                 "read; distinct by content")
     res.samples = [{"history": cases[0][0][:10], "observed": cases[0][1][:10]}]
     shards, index = SL.shards_for(cases)
